@@ -13,7 +13,7 @@ NPROC = os.cpu_count() or 4
 ALLOWED_AXIOMS = {'propext', 'Quot.sound', 'Classical.choice'}
 POCO = ['-lPocoFoundation', '-lPocoNet', '-lPocoUtil', '-lz', '-lpthread']
 SAN = {
-    'asan': ['-O1', '-g', '-fsanitize=address,undefined', '-fno-sanitize=alignment', '-fno-sanitize-recover=all', '-D_GLIBCXX_ASSERTIONS', '-D_GLIBCXX_SANITIZE_VECTOR'],
+    'asan': ['-O1', '-g', '-fsanitize=address,undefined', '-fno-sanitize=alignment,vptr', '-fno-sanitize-recover=all', '-D_GLIBCXX_ASSERTIONS', '-D_GLIBCXX_SANITIZE_VECTOR'],
     'tsan': ['-O1', '-g', '-fsanitize=thread'],
     'none': ['-O1', '-g'],
 }
